@@ -5,16 +5,42 @@ open Kv Drv
 namespace Drv.C19
 open _root_.C19 Disco
 
-def parseStrategy (l : Line) (kindKey argKey : String) : IssuerStrategy :=
-  match str l kindKey with
-  | "host" => .fromHost (str l argKey)
-  | "forwarded" => .fromForwarded (str l argKey)
-  | _ => .static (str l argKey)
-
 def parseInput (l : Line) : Input :=
   let c := parseConfig l
   { cfg := c, providerEndpoints := parseEndpoints l "pe.",
-    issuer := requestIssuer (parseStrategy l "is.kind" "is.arg") c.insecure (str l "host") (opt l "fwd") }
+    issuer := (requestIssuer (parseOracleP l "is.arg" "ip.") (parseStrategy l "is.kind" "is.arg") c.insecure (str l "host") (opt l "fwd")).getD "model:provider-not-constructible" }
+
+/-! #### kind=visit -/
+
+/-- the forwarding headers of the request, `h<i>.name` ↦ `h<i>.vals` (configured names that are absent come with an empty list) -/
+def parseReq (l : Line) : DiscReq :=
+  { Host := str l "host",
+    headers := (List.range (nat l "hn")).map fun i => (str l s!"h{i}.name", list l s!"h{i}.vals") }
+
+/-- `httpforwarded.ParseParameter("host", values)` as an oracle: the library's answer for exactly the value lists of this request -/
+def fwdOracleOf (l : Line) : String → List String → Go.R (List String) := fun param vals =>
+  if param != "host" then .error "not-queried" else
+  match (List.range (nat l "hn")).find? (fun i => list l s!"h{i}.vals" == vals) with
+  | some i => if bool l s!"h{i}.perr" then .error "parse" else .ok (list l s!"h{i}.hosts")
+  | none => .error "not-queried"
+
+def customHeaders (l : Line) : Option (List String) := if has l "is.hdrs" then some (list l "is.hdrs") else none
+
+/-- the model's visit: the regenerated strategy constructs the issuer function, the regenerated interceptor and discovery route
+    serve the request; agreement = same status, same document (every member the property reads), same token issuers -/
+def visitModel (l : Line) : Option VisitObs :=
+  let i : Input := { cfg := parseConfig l, providerEndpoints := parseEndpoints l "pe." }
+  let o : ServeOracles := { urlParse := parseOracleP l "is.arg" "ip.", parseFwd := fwdOracleOf l }
+  match issuerFn o (parseStrategy l "is.kind" "is.arg") (customHeaders l) i.cfg.insecure with
+  | .error _ => none
+  | .ok f => some (modelVisit i f (parseReq l) ((parseVisitObs l).tokenIssuers.map (·.1)))
+
+def agreeVisit (l : Line) : Bool :=
+  match visitModel l with
+  | none => false
+  | some m =>
+    let o := parseVisitObs l
+    o.status == m.status && o.doc == m.doc && o.tokenIssuers == m.tokenIssuers
 
 def isUnsupported (code : String) : Bool := code == unsupportedGrantType
 
@@ -41,6 +67,11 @@ def showRes (r : Go.R Unit) : String := match r with | .ok _ => "ok" | .error e 
 def modelLine (l : Line) : String × Bool :=
   match str l "kind" with
   | "config" => (docSummary (modelObs (parseInput l)).doc, str l "obs" != "panic" && agreeConfig l)
+  | "visit" =>
+    let ms := match visitModel l with
+      | some m => s!"iss={esc m.doc.Issuer};{docSummary m.doc}"
+      | none => "provider-not-constructible"
+    (ms, str l "obs" != "panic" && agreeVisit l)
   | "issuer" =>
     let m := constructIssuer (parseOracle l "s") (.static (str l "s")) (bool l "insecure")
     (showRes m, showRes m == observedOf l)
@@ -48,7 +79,7 @@ def modelLine (l : Line) : String × Bool :=
     let s := parseStrategy l "strategy" "path"
     let m := constructIssuer (parseOracle l "path") s (bool l "insecure")
     let issOK := match m, opt l "o.iss" with
-      | .ok _, some x => x == requestIssuer s (bool l "insecure") (str l "host") (opt l "fwd")
+      | .ok _, some x => some x == requestIssuer (parseOracle l "path") s (bool l "insecure") (str l "host") (opt l "fwd")
       | .ok _, none => false
       | .error _, some _ => false
       | .error _, none => true
